@@ -127,6 +127,7 @@ from .iter_elim import (
     Ctx,
     Plan,
     SubstNames,
+    binding_names,
     clone,
     comp_binding_is_pairs,
     destructure_subst,
@@ -239,6 +240,9 @@ class _ZipElimInstance(DefaultTransformVisitor):
             if rewritten is None:
                 new_targets.append(self._visit_binding(target, ctx))
                 new_iterables.append(new_iter)
+                # a stage that binds a substituted name again shadows it
+                for name in binding_names(target):
+                    subst.pop(name, None)
             else:
                 new_target, new_iterable = rewritten
                 new_targets.append(new_target)
